@@ -38,6 +38,10 @@ BARRIER_OPS = {"wait", "reset", "abort"}
 
 
 MUTANTS = [
+    ("background subtracted from the own rows only", "AegeanTools/BANE.py",
+     "    data -= ibkg[data_row_min:data_row_max, :]",
+     "    data[ymin - data_row_min:ymax - data_row_min, :] -= ibkg[ymin:ymax, :]",
+     "C07-R10"),
     ("stripe request raised to the core count", "AegeanTools/BANE.py",
      "    if (nslice is None) or (cores == 1):\n        nslice = cores",
      "    if (nslice is None) or (cores == 1) or (nslice < cores):\n        nslice = cores",
@@ -236,6 +240,7 @@ def run(ctx):
     r6(ctx, parent, tasks_expr, worker)
     r8_nodes(ctx, prog, worker)
     r9_layout(ctx, prog, parent)
+    r10_halo(ctx, prog, worker)
     # ---------------------------------------------------------------- R7
     ctx.rule("C07-R7", "stripe lay-out: rows and columns are never mixed in "
              "the worker -- the halo rows loaded around a stripe, the box "
@@ -960,6 +965,66 @@ def r5(ctx, worker, bglobal):
 
 
 # --------------------------------------------------------------------------
+def r10_halo(ctx, prog, worker, rule="C07-R10"):
+    """the number of stripes changes the maps only slightly: rows a stripe
+    borrows from its neighbours (the halo) are treated like its own rows
+    before the noise statistics are taken"""
+    ctx.rule(rule, "stripe layout independence of the noise map: the "
+             "background is subtracted from the WHOLE block a stripe loaded "
+             "(own rows and halo rows, block rows = background rows), so a "
+             "noise box next to a stripe boundary sees the same pixel values "
+             "whatever the layout (shared intent with C06-R1)")
+    loads = [st for st in walk_no_nested(worker.node)
+             if isinstance(st, ast.Assign) and
+             isinstance(st.targets[0], ast.Name) and
+             ".section[" in norm(st.value, 400)]
+    if not loads:
+        raise AnalysisError("%s: block load of the worker" % rule)
+    blk = loads[0].targets[0].id
+    rows = set()
+    for st in loads:
+        for x in ast.walk(st.value):
+            if isinstance(x, ast.Subscript) and \
+                    norm(x.value).endswith(".section"):
+                sl = x.slice.elts if isinstance(x.slice, ast.Tuple) \
+                    else [x.slice]
+                if len(sl) >= 2 and isinstance(sl[-2], ast.Slice):
+                    rows.add((norm(sl[-2].lower), norm(sl[-2].upper)))
+    subs = [st for st in walk_no_nested(worker.node)
+            if isinstance(st, ast.AugAssign) and isinstance(st.op, ast.Sub)
+            and (norm(st.target) == blk or
+                 isinstance(st.target, ast.Subscript) and
+                 norm(st.target.value) == blk)]
+    if len(rows) != 1 or len(subs) != 1:
+        raise AnalysisError("%s: block rows %s / %d subtraction(s)" %
+                            (rule, rows, len(subs)))
+    lo, hi = rows.pop()
+    st = subs[0]
+    whole = isinstance(st.target, ast.Name)
+    if isinstance(st.target, ast.Subscript):
+        sl = st.target.slice.elts if isinstance(st.target.slice, ast.Tuple) \
+            else [st.target.slice]
+        r0 = sl[0]
+        whole = isinstance(r0, ast.Slice) and \
+            (r0.lower is None or norm(r0.lower) == "0") and \
+            (r0.upper is None or norm(r0.upper) == blk + ".shape[0]")
+    v = st.value
+    vr = None
+    if isinstance(v, ast.Subscript):
+        sl = v.slice.elts if isinstance(v.slice, ast.Tuple) else [v.slice]
+        if isinstance(sl[0], ast.Slice):
+            vr = (norm(sl[0].lower) if sl[0].lower else None,
+                  norm(sl[0].upper) if sl[0].upper else None)
+    ctx.check(rule, worker, "background removed from the whole block: " +
+              norm(st, 70), whole and vr == (lo, hi),
+              "the block holds rows %s:%s of the image but the background is "
+              "subtracted from %s with background rows %s: the halo rows keep "
+              "their DC level, and the noise next to every internal stripe "
+              "boundary is inflated by it -- the more stripes, the more "
+              "boundaries" % (lo, hi, "all rows" if whole else
+                              norm(st.target, 50), vr), node=st)
+
+
 def r9_layout(ctx, prog, parent, rule="C07-R9"):
     """the stripe layout is a function of the request and the image, not of
     the number of workers"""
@@ -1071,6 +1136,40 @@ def r6(ctx, parent, tasks_expr, worker):
     if len(lists) != 2:
         raise AnalysisError("C07-R6: stripe lists not recognised: %s" % lists)
     lo, hi = lists
+    # the stripe lists may be produced by a helper of the module:
+    #   ymins, ymaxs = _stripe_edges(img_y, nslice, step_size)
+    prog_ = ctx.prog
+    for d_ in _defs(parent.node, lo):
+        if isinstance(d_, ast.Assign) and \
+                isinstance(d_.targets[0], ast.Tuple) and \
+                [norm(e) for e in d_.targets[0].elts] == [lo, hi] and \
+                isinstance(d_.value, ast.Call) and \
+                isinstance(d_.value.func, ast.Name):
+            q_ = prog_.resolve_name(prog_.modules[parent.module],
+                                    d_.value.func.id)
+            h_ = prog_.functions.get(q_)
+            rets_ = [r_ for r_ in walk_no_nested(h_.node)
+                     if isinstance(r_, ast.Return) and
+                     isinstance(r_.value, ast.Tuple) and
+                     len(r_.value.elts) == 2 and
+                     all(isinstance(e, ast.Name) for e in r_.value.elts)] \
+                if h_ is not None else []
+            pairs_ = {tuple(e.id for e in r_.value.elts) for r_ in rets_}
+            if len(pairs_) == 1:
+                parent = h_
+                lo, hi = pairs_.pop()
+    # ... or be plain aliases of other locals (an inlined helper's result)
+    def _unalias(nm):
+        for _ in range(4):
+            ds = _defs(parent.node, nm)
+            if len(ds) == 1 and isinstance(ds[0], ast.Assign) and \
+                    isinstance(ds[0].value, ast.Name) and \
+                    isinstance(ds[0].targets[0], ast.Name):
+                nm = ds[0].value.id
+            else:
+                break
+        return nm
+    lo, hi = _unalias(lo), _unalias(hi)
     lo_defs = _defs(parent.node, lo)
     hi_defs = _defs(parent.node, hi)
     n = 0
